@@ -52,52 +52,57 @@ type Run struct {
 
 	Params map[string]string
 
-	trace     []string
 	viol      *Violation
 	stats     *Stats
 	quiet     bool
 	prop      string
 	traceOn   bool
-	h         [32]byte
-	hw        interface{ Write([]byte) (int, error) }
-	hsum      func() []byte
+	// Everything that enters the trace hash, stored by index into pre-allocated chunks: tasks of a scheduler
+	// harness and the scheduler itself log into the same run, and neither runtime slice growth nor a shared
+	// hash state may be visible to the race detector (append/copy carry race hooks even in //go:norace code).
+	chunks [512]*[1024]string
+	nlines int
 	known     func(prop, class, fp string) bool
 	knownHits []Violation
 }
 
 func newRun(prop string, src *Source, seed, idx uint64, st *Stats, quiet bool, params map[string]string) *Run {
-	hh := sha256.New()
-	return &Run{Src: src, Seed: seed, Index: idx, stats: st, quiet: quiet, prop: prop, traceOn: true,
-		hw: hh, hsum: func() []byte { return hh.Sum(nil) }, Params: params}
+	return &Run{Src: src, Seed: seed, Index: idx, stats: st, quiet: quiet, prop: prop, traceOn: true, Params: params}
 }
 
 // Logf appends a line to the run's trace. It never draws and never reads a clock.
 //
 //go:norace
 func (r *Run) Logf(format string, args ...any) {
-	line := fmt.Sprintf(format, args...)
-	r.hw.Write([]byte(line))
-	r.hw.Write([]byte{'\n'})
-	if len(r.trace) < 4000 {
-		r.trace = append(r.trace, line)
-	}
+	r.put(fmt.Sprintf(format, args...), true)
 }
 
 // Log is Logf without formatting (usable where fmt must be avoided).
 //
 //go:norace
-func (r *Run) Log(line string) {
-	r.hw.Write([]byte(line))
-	r.hw.Write([]byte{'\n'})
-	if len(r.trace) < 4000 {
-		r.trace = append(r.trace, line)
+func (r *Run) Log(line string) { r.put(line, true) }
+
+//go:norace
+func (r *Run) put(line string, visible bool) {
+	c, i := r.nlines/1024, r.nlines%1024
+	if c >= len(r.chunks) {
+		return
 	}
+	if r.chunks[c] == nil {
+		r.chunks[c] = new([1024]string)
+	}
+	if visible {
+		r.chunks[c][i] = "L" + line
+	} else {
+		r.chunks[c][i] = "H" + line
+	}
+	r.nlines++
 }
 
 // HashOnly feeds the trace hash without keeping a line.
 //
 //go:norace
-func (r *Run) HashOnly(b []byte) { r.hw.Write(b) }
+func (r *Run) HashOnly(b []byte) { r.put(string(b), false) }
 
 // Fail records the first violation of the run (later ones are ignored: after a
 // divergence the model no longer describes the system).
@@ -191,9 +196,25 @@ func (r *Run) WantSample() bool {
 	return len(r.stats.Samples) < r.stats.maxSample
 }
 
-func (r *Run) Trace() []string { return r.trace }
+// Trace returns the visible trace lines (at most 4000).
+func (r *Run) Trace() []string {
+	var out []string
+	for k := 0; k < r.nlines && len(out) < 4000; k++ {
+		if l := r.chunks[k/1024][k%1024]; l[0] == 'L' {
+			out = append(out, l[1:])
+		}
+	}
+	return out
+}
 
-func (r *Run) TraceHash() string { return hex.EncodeToString(r.hsum())[:16] }
+func (r *Run) TraceHash() string {
+	h := sha256.New()
+	for k := 0; k < r.nlines; k++ {
+		h.Write([]byte(r.chunks[k/1024][k%1024][1:]))
+		h.Write([]byte{'\n'})
+	}
+	return hex.EncodeToString(h.Sum(nil))[:16]
+}
 
 // ReplayFile is the on-disk artefact of a violation.
 type ReplayFile struct {
